@@ -57,6 +57,12 @@ type snapshot struct {
 	alloc Term
 }
 
+type callRec struct {
+	res  Val
+	args []Val
+	snap *snapshot
+}
+
 type State struct {
 	x        *Exec
 	heaps    map[string]*heapNode
@@ -69,6 +75,7 @@ type State struct {
 	heldW    map[string]bool // ... held exclusively
 	trace    []string
 	ghostInt map[string]Term // per-path ghost counters (e.g. sends per stream)
+	lastCall map[string]*callRec // per path: result and post-state of the latest call checked against each contract
 	panicked bool
 	pendingAlloc string // alloc counter that bounds references in heap versions being created
 	loopSnaps map[*ssa.BasicBlock]*snapshot // heap at the first arrival at each loop head (atloop(...))
@@ -129,6 +136,12 @@ func (st *State) fork() *State {
 	n.ghostInt = make(map[string]Term, len(st.ghostInt))
 	for k, v := range st.ghostInt {
 		n.ghostInt[k] = v
+	}
+	if st.lastCall != nil {
+		n.lastCall = make(map[string]*callRec, len(st.lastCall))
+		for k, v := range st.lastCall {
+			n.lastCall[k] = v
+		}
 	}
 	n.trace = append([]string(nil), st.trace...)
 	n.events = st.events
